@@ -25,6 +25,9 @@ structure TargetOk (t : JVal) : Prop where
   nodup : NoDupKeys t
   nonulls : NoNulls t
   annFree : annFree t = true
+  /-- the target has a `metadata` map (the forced overlay makes one) that does not set
+      `ownerReferences` — that key is C08's and is never patched from the target (fix F7) -/
+  ownerFree : ownerRefsFree t = true
 
 /-! ## the comparator accepts whatever meets the target -/
 
@@ -117,7 +120,7 @@ theorem patch_pass_reaches_target (c : Cfg) (t live : JVal) (d : JVal) (h : Targ
     ∃ body, correct c t live = ⟨some (mergePatch live body), .retry d, [.patch body]⟩ ∧
       Meets t (mergePatch live body) (strip t) := by
   obtain ⟨body, hb, hall⟩ := patch_reaches_target c.codec t h hc
-  exact ⟨body, by simp [correct, hp, ho, hb], (hall live).1⟩
+  exact ⟨body, by simp [correct, hp, ho, hb, dropOwnerRefs, h.ownerFree], (hall live).1⟩
 
 /-- creation: when what the create overlay produced does not contradict the target (explicit
     hypothesis `hm`; `create_plain` below shows it holds when there is no create overlay), the pass
@@ -143,7 +146,7 @@ theorem no_update_loop (c : Cfg) (t live : JVal) (d : JVal) (h : TargetOk t)
   intro r hr
   obtain ⟨body, hb, hall⟩ := patch_reaches_target c.codec t h hc
   have hcor : correct c t live = ⟨some (mergePatch live body), .retry d, [.patch body]⟩ := by
-    simp [correct, hp, ho, hb]
+    simp [correct, hp, ho, hb, dropOwnerRefs, h.ownerFree]
   subst hr
   rw [hcor]
   exact ⟨_, rfl, no_mutation_at_target c t _ _ h.wf (hall live).2 (hall live).1 (by simp [ownerOk, ho])⟩
@@ -191,7 +194,7 @@ def exCodec : Codec where
   loads s := if s = "T" then some (strip exTarget) else none
 
 example : TargetOk exTarget :=
-  ⟨by unfold DirectivesWF; decide, by unfold NoDupKeys; decide, by unfold NoNulls; decide, by decide⟩
+  ⟨by unfold DirectivesWF; decide, by unfold NoDupKeys; decide, by unfold NoNulls; decide, by decide, by decide⟩
 example : exCodec.reads (strip exTarget) := ⟨by decide, rfl⟩
 example : Meets exTarget exLive (strip exTarget) := by decide
 example : validateMatch exTarget exLive (strip exTarget) false = .ok := by decide
